@@ -20,6 +20,7 @@ From SP Require Import Bytes Params Msgpack Crypto Errors Nonce Packets Verify D
   PanicSites PanicModel ToyCrypto NoPanicProofs.
 From SP Require Import GoLang GoAst GoAstProofs.
 From Coq Require String.
+Import String.StringSyntax.
 Import ListNotations.
 
 Definition sb_open_len (c : crypto) : Prop :=
